@@ -32,7 +32,10 @@ for pid in props:
         "engine": "coq-proof+correspondence",
         "level_claimed": {"category": meta["category"], "text": meta["text"], "design_ref": meta["design_ref"]},
         "level_note": meta["note"],
-        "technique": meta["technique"],
+        "technique": meta["technique"] + ("; model tied to facts the translator regenerates from the source on every run "
+                                          "(coq/%s/GenTie.v proof obligations)" % pid
+                                          if os.path.exists(os.path.join(vlib.COQ, pid, "GenTie.v")) and "translator" not in meta["technique"]
+                                          else ""),
     })
 hooks = json.load(open(os.path.join(vlib.VERIF, "tools", "hooks.json")))
 man = {
